@@ -427,7 +427,11 @@ def replay(data):
     o = json.loads(r.stdout)[0]
     inj = o.get("inject")
     if not inj or not inj.get("reached"):
-        print(json.dumps({"task": t, "reached": False, "why": (inj or {}).get("why")}, indent=1))
+        print(json.dumps({"task": t, "reached": False, "why": (inj or {}).get("why"),
+                          "phase1_error": (o.get("phase1_error") or "")[-600:]}, indent=1))
+        if o.get("phase1_error"):
+            print(f"VIOLATION property={PID} replay=(replayed) the run crashed before the signal could be delivered")
+            return 1
         return 0
     bad = verdict_ins(o) if t["sampler"] == "ins" else verdict_standard(o)
     d = None if t["sampler"] == "ins" else observed_delta(o)
